@@ -218,6 +218,13 @@ def load_findings(prop):
 # the check
 # --------------------------------------------------------------------------
 
+def default_canon(case, r):
+    """link errors come out in the iteration order of a HashMap: compare error lists as sets"""
+    if r is None or "E:[" not in r and "err=[" not in r:
+        return r
+    return re.sub(r"\[([^\[\]]*;[^\[\]]*)\]", lambda m: "[" + ";".join(sorted(m.group(1).split(";"))) + "]", r)
+
+
 def write_replay(prop, payload):
     os.makedirs(REPLAY, exist_ok=True)
     h = hashlib.sha1(json.dumps(payload, sort_keys=True).encode()).hexdigest()[:12]
@@ -311,7 +318,7 @@ def run_check(mod, tier, seed):
     diffs = []
     nontrivial = set()
     dist = {}
-    canon = getattr(mod, "canon", lambda case, r: r)
+    canon = getattr(mod, "canon", default_canon)
     for i, c in enumerate(cases):
         r = impl[i]
         dist[c.tag] = dist.get(c.tag, 0) + 1
@@ -327,6 +334,11 @@ def run_check(mod, tier, seed):
     if cross:
         mon_fail.extend(cross(cases, impl, model))
 
+    if os.environ.get("VERIF_DEBUG"):
+        for i in diffs[:int(os.environ["VERIF_DEBUG"])]:
+            print("DIFF", cases[i].sig[:1500])
+            print("  impl :", impl[i][-700:])
+            print("  model:", model[i][-700:])
     reported = set()
     for i, v in mon_fail:
         c = cases[i]
